@@ -1,7 +1,8 @@
 PROPERTY = {
     'id': 'C10',
-    'contract_modules': ['doctest_example', 'runner'],
-    'functions': ['xdoctest.runner:_run_examples', 'xdoctest.doctest_example:DocTest.run',
+    'contract_modules': ['doctest_example', 'runner', 'util_stream', 'checker', 'doctest_part'],
+    'uses': {'xdoctest.doctest_example:DocTest.run': 'C09'},
+    'functions': ['xdoctest.runner:_run_examples',
                   'xdoctest.doctest_example:DocTest.is_disabled',
                   'xdoctest.doctest_example:DocTest.cmdline', 'xdoctest.doctest_example:DocTest.node',
                   'xdoctest.runner:doctest_module#gather', 'xdoctest.runner:doctest_module', 'xdoctest.__main__:main#tail',
